@@ -32,6 +32,8 @@ fn module_text(c: &Case) -> String {
          Zz-Ch ::= CHOICE {{ {l} INTEGER, zz-other NULL }}\n\
          Zz-En ::= ENUMERATED {{ {l}, zz-other2 }}\n\
          Zz-Nn ::= INTEGER {{ {l}(1) }}\n\
+         Zt-{u} ::= [APPLICATION 3] INTEGER (0..7)\n\
+         Zs-{u} ::= [5] IA5String\n\
          {l} INTEGER ::= 5\n\
          END\n",
         u = c.upper,
@@ -161,6 +163,18 @@ fn judge(c: &Case, mods: &[RModule]) -> Option<(&'static str, String)> {
     }
     if let Some(f) = check_one(Role::Enumeral, &en.variants[0].name, &c.lower, Some(&en.variants[0].attrs)) {
         return Some(f);
+    }
+    // type assignments with a tag of their own (delegate newtypes): the annotation must not get lost next to the tag
+    for prefix in ["Zt-", "Zs-"] {
+        let asn1 = format!("{prefix}{}", c.upper);
+        let rust = crate::structure::title_case(&asn1);
+        let Some(t) = m.find_struct(&rust) else { return Some(("structure", format!("the tagged type {asn1} was not generated as {rust}"))) };
+        if t.attrs.tag.is_none() {
+            return Some(("structure", format!("{rust} carries no tag")));
+        }
+        if let Some(f) = check_one(Role::Type, &t.name, &asn1, Some(&t.attrs)) {
+            return Some(f);
+        }
     }
     let consts: Vec<_> = m.items.iter().filter_map(|i| match i { RItem::Const(k) => Some(k), _ => None }).collect();
     if consts.len() != 1 {
